@@ -5,11 +5,14 @@
   Models: Model/H1Resp.lean (http_response_write_prepare, h1_send_headers, encoders, and the
   reference side written from RFC 9112: `wireDecode` on the bytes, `rfcFraming` / `rfcBody` /
   `rfcDechunk`), Model/HttpChunkEnc.lean (http_chunk.c), Model/NetWrite.lean (network_write.c over
-  a chunk queue with a write-result schedule).  What is NOT here: the order of responses on a
-  connection (connection state machine: end-to-end stream only).
+  a chunk queue with a write-result schedule), Model/H1End.lean (connection_handle_response_end_state,
+  connection_handle_shutdown / connection_close and the re-entry of connection_state_machine_loop for the
+  next pipelined request).  What is NOT here: READ / HANDLE_REQUEST of the state machine (which request
+  produces which descriptor), the lingering close (C13).
 -/
 import LtVerif.Proofs.H1Resp
 import LtVerif.Proofs.NetWrite
+import LtVerif.Proofs.H1End
 namespace LtVerif.C04
 open LtVerif B
 
@@ -491,5 +494,92 @@ example : HdrsClean exStatic.hdrs := by
   simp [exStatic] at hh
   subst hh
   exact ⟨⟨by decide, by decide⟩, ⟨by decide, by decide⟩⟩
+
+/-! ## the end of a response on the connection: once per request, in order, really closed -/
+section conn
+open H1End
+
+/-- **The connection goes on to the next request only after a complete, keep-alive exchange; otherwise
+    it is really closed.**  For EVERY state in which connection_handle_response_end_state() can be
+    entered (any version, status, request-body accounting, error flag, keep-alive value incl.
+    negative, leftover 1xx queue, descriptor state, shutdown() result, pipelined bytes): the state
+    becomes CON_STATE_REQUEST_START exactly if the request was HTTP/1.x, its body was read completely,
+    the write state did not end in error and r->keep_alive > 0; in every other case the write side
+    is shut down (FIN: state CON_STATE_CLOSE, pipelined bytes only drained, never parsed) or the
+    descriptor is closed (CON_STATE_CONNECT, read queue emptied). -/
+theorem c04_response_end_really_closes (i : EndIn) :
+    ((responseEnd i).state = .requestStart ↔
+      (i.h2 = false ∧ i.reqLen = i.reqIn ∧ i.isError = false ∧ 0 < i.keepAlive)) ∧
+    ((responseEnd i).state ≠ .requestStart →
+      ((responseEnd i).fin = true ∨ (responseEnd i).closed = true) ∧
+      ((responseEnd i).fin = true → (responseEnd i).state = .close ∧ (responseEnd i).pending = i.pending) ∧
+      ((responseEnd i).closed = true → (responseEnd i).state = .connect ∧ (responseEnd i).pending = 0)) := by
+  refine ⟨responseEnd_continues_iff i, fun h => ?_⟩
+  obtain ⟨h1, h2, h3⟩ := responseEnd_not_continues i h
+  exact ⟨h1, fun hf => ⟨(h2 hf).1, (h2 hf).2.2⟩, h3⟩
+
+/-- **Responses appear once per request, in request order.**  For EVERY pipeline of requests (any
+    responses, keep-alive flags, write errors after any number of bytes, unread request bodies) and
+    any descriptor / shutdown() behaviour: the bytes written on the connection are exactly the
+    responses of the first `answered` requests, concatenated in request order, each once; all but the
+    last of them are complete and were keep-alive exchanges; if the connection is still open
+    afterwards every request was answered completely; otherwise the last answered request is the
+    first one that did not allow to continue, the connection is shut down or closed right behind its
+    response, and no later request is answered. -/
+theorem c04_once_per_request_in_order (fdOk shutOk : Bool) (reqs : List Req) :
+    (connRun fdOk shutOk reqs).answered ≤ reqs.length ∧
+    (connRun fdOk shutOk reqs).wire
+      = ((reqs.take (connRun fdOk shutOk reqs).answered).map sentOf).flatten ∧
+    (∀ j q, j + 1 < (connRun fdOk shutOk reqs).answered → reqs[j]? = some q →
+      Continues q ∧ sentOf q = q.msg) ∧
+    ((connRun fdOk shutOk reqs).final = none →
+      (connRun fdOk shutOk reqs).answered = reqs.length ∧
+      ∀ q ∈ reqs, Continues q ∧ sentOf q = q.msg) ∧
+    (∀ e, (connRun fdOk shutOk reqs).final = some e →
+      ∃ k q, (connRun fdOk shutOk reqs).answered = k + 1 ∧ reqs[k]? = some q ∧ ¬ Continues q ∧
+        e = responseEnd (endIn fdOk shutOk (reqs.length - (k + 1)) q) ∧
+        e.state ≠ .requestStart ∧ (e.fin = true ∨ e.closed = true)) :=
+  connRun_spec fdOk shutOk reqs
+
+/-- **No length, no chunking ⇒ the connection is really closed behind the response** (composition of
+    `c04_undelimited_closes` with the connection end).  Under the hypotheses of
+    `c04_undelimited_closes`, whatever requests are pipelined behind this one, whatever the write
+    state did and however shutdown() answers: the response of `d` is the last thing on the wire, no
+    later request is answered, and the write side is shut down or the descriptor closed. -/
+theorem c04_undelimited_really_closes (d : RespIn) (date : Bytes) (hm : d.meth ≠ .head)
+    (hb : isBodiless d.status = false) (hnt : ¬ (d.meth = .connect ∧ d.status = 200))
+    (hcl : Hdrs.has (respond d date).hdrs nContentLength = false)
+    (hte : Hdrs.has (respond d date).hdrs nTransferEncoding = false)
+    (hup : Hdrs.has (respond d date).hdrs nUpgrade = false)
+    (fdOk shutOk : Bool) (wrote : Option Nat) (reqLen reqIn : Int) (rest : List Req) :
+    let q := Req.ofResp d date wrote reqLen reqIn
+    ∃ e, connRun fdOk shutOk (q :: rest) = ⟨sentOf q, 1, some e⟩ ∧ (e.fin = true ∨ e.closed = true) ∧
+      e.state ≠ .requestStart := by
+  intro q
+  have hka : q.ka = false := c04_undelimited_closes d date hm hb hnt hcl hte hup
+  have hnc : ¬ Continues q := by intro hc; rw [hc.2.1] at hka; cases hka
+  have hst : (responseEnd (endIn fdOk shutOk rest.length q)).state ≠ .requestStart :=
+    fun h => hnc ((endIn_continues_iff fdOk shutOk rest.length q).1 h)
+  refine ⟨responseEnd (endIn fdOk shutOk rest.length q), ?_, (responseEnd_not_continues _ hst).1, hst⟩
+  simp [connRun, hst]
+
+/-- a pipeline of three: keep-alive, then `Connection: close`, then one that is never answered -/
+def exPipe : List Req :=
+  [{ msg := ofString "A", ka := true }, { msg := ofString "BB", ka := false }, { msg := ofString "CCC", ka := true }]
+example : connRun true true exPipe
+    = ⟨ofString "ABB", 2, some { state := .close, done := 1, sepWq := false, fin := true, closed := false, pending := 1 }⟩ := by
+  decide
+example : (connRun true false exPipe).final
+    = some { state := .connect, done := 1, sepWq := false, fin := false, closed := true, pending := 0 } := by decide
+example : (connRun true true [{ msg := ofString "A", ka := true }, { msg := ofString "BB", ka := true }]).final = none := by
+  decide
+example : (connRun true true [{ msg := ofString "ABCD", ka := true, wrote := some 2 }, { msg := ofString "x", ka := true }]).wire
+    = ofString "AB" := by decide
+example : (responseEnd { keepAlive := 1, reqLen := 10, reqIn := 4, sepWq := true, pending := 7 })
+    = { state := .close, done := 1, sepWq := false, fin := true, closed := false, pending := 7 } := by decide
+example : (responseEnd { keepAlive := -1 }).state = .close ∧ (responseEnd { keepAlive := 1, pending := 3 }).state = .requestStart := by
+  decide
+
+end conn
 
 end LtVerif.C04
